@@ -94,12 +94,26 @@ func calleeIs(e *ir.Expr, suffix string) bool {
 	return e != nil && e.Op == "call" && strings.HasSuffix(e.Name, suffix)
 }
 
+// intMul: e as the big-integer product a.Mul(b); a.MulRaw(n) is a.Mul(NewInt(n)).
+func intMul(e *ir.Expr) (*ir.Expr, bool) {
+	if calleeIs(e, "math.Int).Mul") && len(e.Args) == 2 {
+		return e, true
+	}
+	if calleeIs(e, "math.Int).MulRaw") && len(e.Args) == 2 {
+		ne := *e
+		ne.Name = strings.TrimSuffix(e.Name, "Raw")
+		ne.Args = []*ir.Expr{e.Args[0], {Op: "call", Name: "github.com/cosmos/cosmos-sdk/types.NewInt", Args: []*ir.Expr{e.Args[1]}}}
+		return &ne, true
+	}
+	return e, false
+}
+
 func C10(c *Ctx) {
 	w, r := c.W, c.R
 	r.Explanation = "(A1) bank movements naming the stream module account and writes/deletes of the stream section are reachable only from the stream MsgServer (and genesis import for the section); " +
 		"(A3) pairing with one origin: top-up sends NewCoins(d) from the sender to the module before storing Deposit := Deposit.Add(d) on every success path; a claim pays the fee collector and the receiver the two results of the fee-split function applied to the claim total, stores Deposit := the remaining-deposit result of the claim-amount function applied to the stored deposit, the payouts being skipped only on amount == 0; cancel settles first, refunds the reloaded remaining deposit to the sender and deletes the stream on every success path; " +
 		"(affine split) both pure split functions return, on every return edge, two coins whose sum is syntactically the input (X−Y with Y, or X with a zero coin); (A5/A2) the stream account is a blocked recipient and stream creation rejects blocked receivers; genesis import returns only when balances equal Σ deposits; (A8) no bank error is dropped. Σ-over-streams and rounding are not decided."
-	r.Rules = []string{"A1.escrow-moves", "A1.stream-writers", "A3.topup-pairing", "A3.claim-pairing", "A3.cancel-pairing", "AFF.split", "A5.blocked-addresses", "A2.blocked-receiver", "A3.no-stale-writeback", "A2.genesis-balance", "A8.bank-errors", "A3.lost-update", "A3.stale-element-pointer", "A7.fee-formula"}
+	r.Rules = []string{"A1.escrow-moves", "A1.stream-writers", "A3.topup-pairing", "A3.claim-pairing", "A3.cancel-pairing", "AFF.split", "A5.blocked-addresses", "A2.blocked-receiver", "A3.no-stale-writeback", "A2.genesis-balance", "A8.bank-errors", "A3.lost-update", "A3.stale-element-pointer", "A3.element-carry", "A7.fee-formula"}
 	lostUpdateControl(c)
 	r.Floor("functions of stream scanned for dropped updates to record copies", lostUpdates(c, "stream"), 15)
 	r.Trusted = []string{"bank transfers move exactly the given coins or fail", "bank refuses transfers to blocked addresses", "sdk.Coin Add/Sub arithmetic"}
@@ -1157,8 +1171,8 @@ func elapsedSeconds(c *Ctx) {
 				if !ok {
 					continue
 				}
-				e := w.ExprOf(call)
-				if !calleeIs(e, "math.Int).Mul") || len(e.Args) != 2 {
+				e, isMul := intMul(w.ExprOf(call))
+				if !isMul {
 					continue
 				}
 				// one factor is the flow-rate parameter, the other the seconds
@@ -1455,10 +1469,16 @@ var streamPanicReviewed = map[string]string{
 func C12(c *Ctx) {
 	w, r := c.W, c.R
 	r.Explanation = "(A10) panic-source inventory over every stream function reachable from the stream MsgServer and the stream messages' ValidateBasic: every explicit panic and every call of a panicking SDK API (TruncateInt64/Int64/Uint64, Coin.Sub/Add, NewCoin(s), NewDecCoinFromCoin, Quo*, ...) is enumerated from the resolved program; each site must either be guarded by the recognised dominating predicate (flow rate > 0 before division, deposit > claim before Sub, same denomination before Add, amount > 0 before NewCoins) or appear in the reviewed table keyed by function, API and ordinal with its reason; any other site — e.g. a newly added Int64() on a deposit-derived value — is a violation. Decides absence of unreviewed arithmetic panic sources, not liveness."
-	r.Rules = []string{"A10.panic-api", "A10.explicit-panic", "A2.panic-guard", "A10.implicit-panic", "A3.cancel-pairing"}
+	r.Rules = []string{"A10.panic-api", "A10.explicit-panic", "A2.panic-guard", "A10.implicit-panic", "A3.cancel-pairing", "A5.blocked-addresses", "A2.no-duration-refusal"}
 	// a cancel returns the unreleased remainder: every successful cancel refunds the stored remaining deposit (after the
 	// settlement) and only then deletes the stream
 	cancelPairing(c)
+	// the refund of a cancel reaches its sender: the governance account, which funds streams through proposals, stays exempt
+	// from the blocked list (and the escrow account stays on it)
+	blockedAddresses(c, []string{"stream"}, "gov")
+	// a claim, a cancel and an affordable top-up are not refused for how long the amount lasts at the stream's rate: the
+	// minimum-duration rule belongs to creation alone
+	noDurationRefusal(c)
 	r.Trusted = []string{"reasons recorded in the reviewed table (rate within [0,1] is C16's obligation)", "SDK arithmetic panics only as documented"}
 	r.NotDecided = []string{"that claim/cancel/top-up succeed (liveness)", "bank-side failures"}
 	scope := streamScope(c)
@@ -1708,8 +1728,8 @@ func panicGuard(c *Ctx, f *ssa.Function, call *ssa.Call, e *ir.Expr, kind string
 		if len(e.Args) != 2 {
 			return false
 		}
-		amt := e.Args[1]
-		if !(calleeIs(amt, "math.Int).Mul") && len(amt.Args) == 2) {
+		amt, isMul := intMul(e.Args[1])
+		if !isMul {
 			return false
 		}
 		sec := amt.Args[0]
@@ -1748,6 +1768,8 @@ func panicGuard(c *Ctx, f *ssa.Function, call *ssa.Call, e *ir.Expr, kind string
 // + CalculateDuration(deposit, rate) seconds.
 func streamFields(c *Ctx) {
 	r := c.R
+	nzt := 0
+	defer func() { r.Floor("recomputed deposit-zero times whose formula was judged", nzt, 2) }()
 	for _, method := range []string{"CreateStream", "UpdateFlowRate"} {
 		h := handlerOf(c, "stream", method)
 		if h == nil {
@@ -1779,6 +1801,66 @@ func streamFields(c *Ctx) {
 				}
 			}
 			if zt := fieldOfStruct(st, "DepositZeroTime"); zt != nil {
+				if os.Getenv("MCDEBUG") == "zt" {
+					fmt.Fprintln(os.Stderr, "zt", method, fn(in.Eff.Fn), zt)
+				}
+				// the formula: zero time = (block time | stored zero time) + CalculateDuration(...) whole seconds — the base is a
+				// time with its sub-second part (the same instant LastOutflowTime is set to), the duration is scaled by time.Second
+				var ztAlts []*ir.Expr
+				for _, alt := range zt.Alts() {
+					// a helper of the repository that does the addition (types.ZeroTimeFrom(base, seconds)): what it returns
+					if alt.Op == "call" && alt.Callee != nil && !calleeIs(alt, "types.CalculateDuration") {
+						if in := c.W.Inline(alt); in != nil {
+							ztAlts = append(ztAlts, in.Alts()...)
+							continue
+						}
+					}
+					ztAlts = append(ztAlts, alt)
+				}
+				for _, alt := range ztAlts {
+					if !alt.Any(func(x *ir.Expr) bool { return calleeIs(x, "types.CalculateDuration") }) {
+						continue
+					}
+					okf := calleeIs(alt, "time.Time).Add") && len(alt.Args) == 2 && (isBlockTime(alt.Args[0]) || streamFieldX(c, alt.Args[0], "DepositZeroTime"))
+					if okf {
+						d := alt.Args[1]
+						for d.Op == "conv" && len(d.Args) == 1 {
+							d = d.Args[0]
+						}
+						okf = d.Op == "bin" && d.Name == "*" && len(d.Args) == 2
+						if okf {
+							x, y := d.Args[0], d.Args[1]
+							strip := func(e *ir.Expr) *ir.Expr {
+								for e.Op == "conv" && len(e.Args) == 1 {
+									e = e.Args[0]
+								}
+								return e
+							}
+							x, y = strip(x), strip(y)
+							okf = x.String() == "time.Second" && calleeIs(y, "types.CalculateDuration") || y.String() == "time.Second" && calleeIs(x, "types.CalculateDuration")
+						}
+					}
+					if !okf {
+						// the same instant spelled on the unix clock (no time.Duration in between): time.Unix(base.Unix() + d, base.Nanosecond())
+						u := alt
+						for (calleeIs(u, "time.Time).UTC") || calleeIs(u, "time.Time).In")) && len(u.Args) >= 1 {
+							u = u.Args[0]
+						}
+						if calleeIs(u, "time.Unix") && len(u.Args) == 2 {
+							sec, ns := u.Args[0], u.Args[1]
+							isBase := func(e *ir.Expr) bool { return isBlockTime(e) || streamFieldX(c, e, "DepositZeroTime") }
+							secOK := sec.Op == "bin" && sec.Name == "+" && len(sec.Args) == 2 && sec.Any(func(x *ir.Expr) bool { return calleeIs(x, "time.Time).Unix") && len(x.Args) == 1 && isBase(x.Args[0]) }) && sec.Any(func(x *ir.Expr) bool { return calleeIs(x, "types.CalculateDuration") })
+							nsOK := ns.Any(func(x *ir.Expr) bool {
+								return calleeIs(x, "time.Time).Nanosecond") && len(x.Args) == 1 && isBase(x.Args[0])
+							})
+							okf = secOK && nsOK
+						}
+					}
+					nzt++
+					r.Require(okf, "A7.stream-fields", method+"|zero-time-formula|"+fn(in.Eff.Fn), pos(c, in.Eff.Site),
+						"a recomputed deposit-zero time is (block time, or the running stream's zero time).Add(time.Second * CalculateDuration(...)): the instant the schedule (re)starts plus whole seconds",
+						alt.String())
+				}
 				zt.Walk(func(x *ir.Expr) bool {
 					if calleeIs(x, "types.CalculateDuration") && len(x.Args) == 2 {
 						depOK := isMsgField(x.Args[0], "Deposit") || streamFieldX(c, x.Args[0], "Deposit") || x.Args[0].Op == "param"
@@ -2048,4 +2130,77 @@ func secondsNonNegative(c *Ctx, fn *ssa.Function, at ssa.Instruction, sv ssa.Val
 		text = se.String()
 	}
 	return text != "" && w.Guarded(fn, at, geZero(text), 0)
+}
+
+// noDurationRefusal (A2.no-duration-refusal): on the routes of MsgTopUpDeposit, MsgClaimStream and MsgCancelStream no branch
+// that compares a CalculateDuration(...) result has a side from which the function can only fail. Creation refuses streams
+// that would run for less than a minute; a check shared with creation (`validateFunding(deposit, rate)`) applied to a
+// top-up refuses every affordable top-up smaller than sixty seconds' worth of flow.
+func noDurationRefusal(c *Ctx) {
+	w, r := c.W, c.R
+	n := 0
+	for _, method := range []string{"TopUpDeposit", "ClaimStream", "CancelStream"} {
+		h := handlerOf(c, "stream", method)
+		if h == nil {
+			r.Undecided("A2.no-duration-refusal", method, "", "handler found", "missing")
+			continue
+		}
+		var gs []*ssa.Function
+		for g := range w.Reachable([]*ssa.Function{h}) {
+			if ir.ModuleOf(g) == "stream" && !w.IsGenerated(g) {
+				gs = append(gs, g)
+			}
+		}
+		sortFuncs(gs)
+		bad := ""
+		for _, g := range gs {
+			n++
+			succ := w.SuccessReturns(g)
+			for _, b := range g.Blocks {
+				if len(b.Instrs) == 0 || len(b.Succs) != 2 {
+					continue
+				}
+				iff, ok := b.Instrs[len(b.Instrs)-1].(*ssa.If)
+				if !ok {
+					continue
+				}
+				bo, ok := iff.Cond.(*ssa.BinOp)
+				if !ok {
+					continue
+				}
+				switch bo.Op {
+				case token.LSS, token.LEQ, token.GTR, token.GEQ, token.EQL, token.NEQ:
+				default:
+					continue
+				}
+				mentions := false
+				if bt, isBasic := bo.X.Type().Underlying().(*types.Basic); !isBasic || bt.Info()&types.IsInteger == 0 {
+					continue // (a test of an error that some call handed back is not a test of the duration)
+				}
+				for _, side := range []ssa.Value{bo.X, bo.Y} {
+					isDur := func(z *ir.Expr) bool { return calleeIs(z, "types.CalculateDuration") }
+					if e := w.ExprOf(side); e.Any(isDur) || w.ExpandKeep(e, 2, ir.TypesVocabulary).Any(isDur) {
+						mentions = true
+					}
+				}
+				if !mentions || ir.ErrIndex(g) < 0 {
+					continue
+				}
+				for k := 0; k < 2; k++ {
+					can := false
+					for _, ret := range succ {
+						if ret.Block() == b.Succs[k] || ir.ReachesFrom(g, b.Succs[k], 0, ret, ir.Cut{}) {
+							can = true
+						}
+					}
+					if !can && bad == "" {
+						bad = "in " + fn(g) + " the " + map[int]string{0: "true", 1: "false"}[k] + " side of " + w.ExprOf(bo).String() + " (" + w.InstrPos(bo) + ") can only fail"
+					}
+				}
+			}
+		}
+		r.Require(bad == "", "A2.no-duration-refusal", method, w.Pos(h.Pos()),
+			"a "+method+" is not refused because of how long an amount lasts at the stream's flow rate (the one-minute minimum is a rule of stream creation)", bad)
+	}
+	r.Floor("functions on the top-up, claim and cancel routes searched for duration tests", n, 6)
 }
